@@ -165,6 +165,20 @@ def dimension_table(out: Outcome, rng) -> None:
             if got is not want:
                 out.violation(f"{cls.__name__}: reference {ref_shape} vs test {test_shape} gives {got.__name__ if got else 'a result'} instead of {want.__name__}",
                               {"detector": cls.__name__, "ref_shape": ref_shape, "test_shape": test_shape})
+        if cls in MULTI:
+            # multivariate detectors: the number of columns must agree (and does not matter otherwise)
+            for ref_shape, test_shape, want in [((6, 2), (5, 3), MismatchDimensionError), ((6, 3), (5, 2), MismatchDimensionError),
+                                                ((7, 4), (3, 1), MismatchDimensionError), ((6, 2), (5, 2), None), ((4, 3), (9, 3), None)]:
+                det = cls()
+                det.fit(X=make_array(rng, ref_shape))
+                try:
+                    det.compare(X=make_array(rng, test_shape))
+                    got = None
+                except Exception as e:  # noqa: BLE001
+                    got = type(e)
+                if got is not want:
+                    out.violation(f"{cls.__name__}: reference {ref_shape} vs test {test_shape} gives {got.__name__ if got else 'a result'} instead of "
+                                  f"{want.__name__ if want else 'a result'}", {"detector": cls.__name__, "ref_shape": ref_shape, "test_shape": test_shape})
         if cls not in MULTI:
             det = cls()
             try:
